@@ -349,6 +349,10 @@ def r7_unwrap_writeback_twins(ctx):
 from ..through_time import make_rule as _mk_tt
 _through_time = _mk_tt("C11")
 
+def _kmer_count_blocks(ctx):
+    from .c13 import r5_coverage_and_accumulation
+    r5_coverage_and_accumulation(ctx)   # in-memory counting walks the flat input in blocks: every block must be visited
+
 RULES = [
     ("C11-R1", r1_lockstep_sources),
     ("C11-R2", r2_graph_lockstep),
@@ -358,4 +362,5 @@ RULES = [
     ("C11-R6", r6_streamable),
     ("C11-R7", r7_unwrap_writeback_twins),
     ("C11-T1", _through_time),
+    ("C11-R8", _kmer_count_blocks),
 ]
